@@ -75,6 +75,7 @@ def main():
 
     general(run, h, rng, proc)
     long_windows(run, h, rng, proc)
+    pole_zero_response(run, h, rng)
     mixed_time_steps(run, h, rng, proc)
     preprocessing(run, h, rng)
     psd_chain(run, h, rng)
@@ -107,6 +108,46 @@ def mixed_time_steps(run, h, rng, proc):
                               dict(kind="psd-mixed-dt", policy=policy, where=where))
             # (the PSD path itself never consults handle_dissimilar_time_steps_by - an observation, outside the listed properties)
             run.case(("mixed-dt", policy, where))
+
+
+def pole_zero_response(run, h, rng):
+    """PSD preprocessing with a pole-zero response: the spectrum of the (demeaned, tapered) record is divided by
+    H(s) = A0 * S * prod(s - z) / prod(s - p) at s = 2 pi f j, the 0 Hz bin removed - stated here with the product formula itself."""
+    from hvsrpy.instrument_response import InstrumentTransferFunction
+    from scipy.signal.windows import tukey as _tukey
+    ts = h.TimeSeries
+    for trial in range(3 if run.quick else 20):
+        n = int(rng.choice([128, 200, 255]))
+        fs = float(rng.choice([50.0, 100.0]))
+        dt = 1.0 / fs
+        poles = [[-4.44 + 4.44j, -4.44 - 4.44j], [-0.037 + 0.037j, -0.037 - 0.037j, -251.3, -131.0 + 467.3j, -131.0 - 467.3j]][trial % 2]
+        zeros = [[0j, 0j], [0j, 0j]][trial % 2]
+        sens, a0 = float(rng.choice([400.0, 1.5e3])), float(rng.choice([1.0, 2.5]))
+        itf = InstrumentTransferFunction(poles=poles, zeros=zeros, instrument_sensitivity=sens, normalization_factor=a0)
+        width = float(rng.choice([0.0, 0.3]))
+        y = rng.normal(size=n) + 3.0
+        rec = h.SeismicRecording3C(ts(y, dt), ts(2 * y, dt), ts(y[::-1], dt))
+        st = h.PsdPreProcessingSettings(orient_to_degrees_from_north=None, filter_corner_frequencies_in_hz=[None, None], window_length_in_seconds=None,
+                                        detrend=None, window_type_and_width=["tukey", width], fft_settings={"n": None}, instrument_transfer_function=itf)
+        with warnings.catch_warnings():
+            warnings.simplefilter("ignore")
+            out = h.preprocess([copy.deepcopy(rec)], st)[0]
+        z = (y - y.mean()) * _tukey(n, alpha=width)
+        f = np.fft.rfftfreq(n, dt)
+        s_ = 2j * np.pi * f
+        H = a0 * sens * np.prod([s_ - zz for zz in zeros], axis=0) / np.prod([s_ - pp for pp in poles], axis=0)
+        X = np.fft.rfft(z)
+        Y = np.zeros_like(X)
+        nz = np.abs(H) > 0
+        Y[nz] = X[nz] / H[nz]
+        Y[0] = 0
+        want = np.fft.irfft(Y, n)
+        scale_ = np.max(np.abs(want))
+        if not (np.allclose(out.ns.amplitude, want, atol=1e-9 * scale_) and np.allclose(out.ew.amplitude, 2 * want, atol=2e-9 * scale_)):
+            run.violation("psd-pre:pole-zero-response", f"n={n} fs={fs} taper={width} poles={poles} zeros={zeros} S={sens} A0={a0}: the output is not the record's spectrum "
+                          f"divided by A0 S prod(s - z)/prod(s - p) at s = 2 pi f j (max abs diff {np.max(np.abs(out.ns.amplitude - want)):.3g}, scale {scale_:.3g})",
+                          dict(kind="psd-pz", n=n, fs=fs, trial=trial))
+        run.case(("pole-zero", trial))
 
 
 def long_windows(run, h, rng, proc):
